@@ -188,7 +188,54 @@ func (c *ctxA) check(fn, op, class, desc string, wf func() wconst.Value, gf func
 		c.report(fn, op, class, "vs-go/constant", fmt.Sprintf("%s: internal/constant gives %s %s, go/constant gives %s %s (%s)", desc, kindNames[p.w.Kind()], clipS(p.w.ExactString()), kindNames[p.g.Kind()], clipS(p.g.ExactString()), why), map[string]any{"call": desc})
 		return p, false
 	}
+	if fn != "Make" { // Make's missing normalisation is reported by its own comparison (known key)
+		if why := resultAccessorsDiffer(p); why != "" {
+			c.report(fn, op, class, "result-accessors-vs-go/constant", fmt.Sprintf("%s = %s: %s", desc, clipS(p.w.ExactString()), why), map[string]any{"call": desc})
+			return p, false
+		}
+	}
 	return p, true
+}
+
+// resultAccessorsDiffer: what the type checker reads from a result - the exactness flags of the
+// Go-typed accessors, BitLen, Sign and the printed form - must be what go/constant gives for the
+// same value (a result that fits 64 bits again must be reported as exact).
+func resultAccessorsDiffer(p pair) string {
+	switch p.w.Kind() {
+	case wconst.Int:
+		wi, wex := wconst.Int64Val(p.w)
+		gi, gex := gconst.Int64Val(p.g)
+		if wex != gex || (wex && wi != gi) {
+			return fmt.Sprintf("Int64Val = (%d, %v), go/constant (%d, %v)", wi, wex, gi, gex)
+		}
+		wu, wux := wconst.Uint64Val(p.w)
+		gu, gux := gconst.Uint64Val(p.g)
+		if wux != gux || (wux && wu != gu) {
+			return fmt.Sprintf("Uint64Val = (%d, %v), go/constant (%d, %v)", wu, wux, gu, gux)
+		}
+		if wconst.BitLen(p.w) != gconst.BitLen(p.g) || wconst.Sign(p.w) != gconst.Sign(p.g) {
+			return fmt.Sprintf("BitLen/Sign = %d/%d, go/constant %d/%d", wconst.BitLen(p.w), wconst.Sign(p.w), gconst.BitLen(p.g), gconst.Sign(p.g))
+		}
+		if p.w.String() != p.g.String() {
+			return fmt.Sprintf("String() = %s, go/constant %s", clipS(p.w.String()), clipS(p.g.String()))
+		}
+	case wconst.Float:
+		cw, cg := wcanon(p.w), gcanon(p.g)
+		if !cw.parsed || !cg.parsed || cw.q.Cmp(cg.q) != 0 {
+			return "" // equal only within the float tolerance: the accessors may round differently
+		}
+		wf, wex := wconst.Float64Val(p.w)
+		gf, gex := gconst.Float64Val(p.g)
+		if math.Float64bits(wf) != math.Float64bits(gf) || wex != gex {
+			return fmt.Sprintf("Float64Val = (%v, %v), go/constant (%v, %v)", wf, wex, gf, gex)
+		}
+		wf32, wex32 := wconst.Float32Val(p.w)
+		gf32, gex32 := gconst.Float32Val(p.g)
+		if math.Float32bits(wf32) != math.Float32bits(gf32) || wex32 != gex32 {
+			return fmt.Sprintf("Float32Val = (%v, %v), go/constant (%v, %v)", wf32, wex32, gf32, gex32)
+		}
+	}
+	return ""
 }
 
 // wantInt compares a Wa result with the math/big value.
@@ -196,6 +243,13 @@ func (c *ctxA) wantInt(fn, op, class, desc string, w wconst.Value, want *big.Int
 	cw := wcanon(w)
 	if cw.kind != 3 || !cw.parsed || cw.i.Cmp(want) != 0 {
 		c.report(fn, op, class, "vs-math/big", fmt.Sprintf("%s: internal/constant gives %s %s, exact value is %s", desc, kindNames[cw.kind], clipS(w.ExactString()), clipS(want.String())), map[string]any{"call": desc})
+	}
+	if fn != "Make" && cw.kind == 3 {
+		i64, ex := wconst.Int64Val(w)
+		u64, uex := wconst.Uint64Val(w)
+		if ex != want.IsInt64() || (ex && i64 != want.Int64()) || uex != want.IsUint64() || (uex && u64 != want.Uint64()) {
+			c.report(fn, op, class, "result-accessors-vs-math/big", fmt.Sprintf("%s = %s: Int64Val = (%d, %v), Uint64Val = (%d, %v); math/big IsInt64=%v IsUint64=%v", desc, clipS(w.ExactString()), i64, ex, u64, uex, want.IsInt64(), want.IsUint64()), map[string]any{"call": desc})
+		}
 	}
 	c.r.Distinct("a|" + fn + op + "|" + strconv.Itoa(want.BitLen()) + "|" + strconv.Itoa(want.Sign()))
 }
@@ -271,7 +325,7 @@ func mkInt(v *big.Int) pair {
 	return p
 }
 
-var shiftCountsA = []uint{0, 1, 2, 7, 8, 31, 32, 33, 63, 64, 65, 127, 128, 129, 255, 511, 512, 1023}
+var shiftCountsA = []uint{0, 1, 2, 3, 4, 7, 8, 31, 32, 33, 62, 63, 64, 65, 66, 67, 99, 100, 127, 128, 129, 255, 511, 512, 1023}
 
 func partAInts(c *ctxA, K int) {
 	vals := intAlphabetA(K)
@@ -379,11 +433,74 @@ func partAInts(c *ctxA, K int) {
 				c.wantInt("Shift", ">>", cls, d, p.w, new(big.Int).Rsh(a, s))
 			}
 		}
+		// leave-and-return chains: the intermediate leaves the 64-bit range (or not) and the result
+		// comes back: (a << k) >> j for every pair of counts, (a << k) / 2^k, -(-a)
+		for _, k := range shiftCountsA {
+			t := new(big.Int).Lsh(a, k)
+			var pt pair
+			if mc.Recover(func() {
+				pt = pair{wconst.Shift(pa.w, wtoken.SHL, k), gconst.Shift(pa.g, gtoken.SHL, k)}
+			}) != "" {
+				continue // reported by the plain shift above
+			}
+			for _, j := range shiftCountsA {
+				want := new(big.Int).Rsh(t, j)
+				cls := sizeClass(t) + "->" + sizeClass(want)
+				d := fmt.Sprintf("((%s) << %d) >> %d", as, k, j)
+				if p, ok := c.check("Shift", ">>", cls, d, func() wconst.Value { return wconst.Shift(pt.w, wtoken.SHR, j) }, func() gconst.Value { return gconst.Shift(pt.g, gtoken.SHR, j) }); ok {
+					c.wantInt("Shift", ">>", cls, d, p.w, want)
+				}
+			}
+			pw := new(big.Int).Lsh(big.NewInt(1), k)
+			ppw := mkInt(pw)
+			cls := sizeClass(t) + "->" + ca
+			d := fmt.Sprintf("((%s) << %d) /= 2^%d", as, k, k)
+			if p, ok := c.check("BinaryOp", "/=", cls, d, func() wconst.Value { return wconst.BinaryOp(pt.w, wtoken.QUO_ASSIGN, ppw.w) }, func() gconst.Value { return gconst.BinaryOp(pt.g, gtoken.QUO_ASSIGN, ppw.g) }); ok {
+				c.wantInt("BinaryOp", "/=", cls, d, p.w, a)
+			}
+		}
+		if mc.Recover(func() {
+			n := pair{wconst.UnaryOp(wtoken.SUB, pa.w, 0), gconst.UnaryOp(gtoken.SUB, pa.g, 0)}
+			d := "-(-(" + as + "))"
+			if p, ok := c.check("UnaryOp", "-", ca+",twice", d, func() wconst.Value { return wconst.UnaryOp(wtoken.SUB, n.w, 0) }, func() gconst.Value { return gconst.UnaryOp(gtoken.SUB, n.g, 0) }); ok {
+				c.wantInt("UnaryOp", "-", ca+",twice", d, p.w, a)
+			}
+		}) != "" {
+			c.report("UnaryOp", "-", ca+",twice", "panic", "-(-("+as+")) panics", nil)
+		}
 		// --- pairs
 		for j, b := range vals {
 			pb := ps[j]
 			cls := ca + "," + sizeClass(b)
 			bs := b.String()
+			// leave-and-return through a second operand: (a * b) / b and (a + b) - b
+			if b.Sign() != 0 {
+				for _, ch := range []struct {
+					name   string
+					f, inv opTok
+				}{{"*,/=", opMUL, opQUOI}, {"+,-", opADD, opSUB}} {
+					var pm pair
+					if mc.Recover(func() {
+						pm = pair{wconst.BinaryOp(pa.w, ch.f.w, pb.w), gconst.BinaryOp(pa.g, ch.f.g, pb.g)}
+					}) != "" {
+						continue
+					}
+					var mid *big.Int
+					if ch.name == "*,/=" {
+						mid = new(big.Int).Mul(a, b)
+						if mid.IsInt64() && mid.Int64() == math.MinInt64 && b.IsInt64() && b.Int64() == -1 {
+							continue // go/constant's MinInt64 / -1
+						}
+					} else {
+						mid = new(big.Int).Add(a, b)
+					}
+					ccls := cls + "," + sizeClass(mid) + "->" + ca
+					d := "((" + as + ") " + ch.f.name + " (" + bs + ")) " + ch.inv.name + " (" + bs + ")"
+					if p, ok := c.check("BinaryOp", ch.name, ccls, d, func() wconst.Value { return wconst.BinaryOp(pm.w, ch.inv.w, pb.w) }, func() gconst.Value { return gconst.BinaryOp(pm.g, ch.inv.g, pb.g) }); ok {
+						c.wantInt("BinaryOp", ch.name, ccls, d, p.w, a)
+					}
+				}
+			}
 			for _, op := range binops {
 				if b.Sign() == 0 && (op.name == "/" || op.name == "/=" || op.name == "%") {
 					continue // the checker never calls the package with a zero divisor
